@@ -190,6 +190,10 @@ func registerIntrinsics(m *Machine) {
 		cancel := FuncV{[]FuncAlt{{G: c.True, Builtin: "ctxcancel", Binds: []Value{ctx.Alts[0].V}}}}
 		return Tuple{ctx, cancel}
 	})
+	I["runtime.GOMAXPROCS"] = inline(func(m *Machine, it *Item, a []Value) Value {
+		m.Assumptions["runtime.GOMAXPROCS(0) returns 1 (one processor; every fourth native replay attempt runs with GOMAXPROCS=1)"] = true
+		return m.IntC(1)
+	})
 	// ---- time
 	I["time.Now"] = inline(func(m *Machine, it *Item, a []Value) Value {
 		tt := m.lookupType("time", "Time")
